@@ -257,6 +257,7 @@ func runCheck(repo, verif, prop, tier, fnFilter string, relock, verbose bool) in
 		timeout = 120
 		confirm = true
 	}
+	knownEarly := readKnown(verif)
 	work := make(chan *Obligation)
 	var swg sync.WaitGroup
 	for w := 0; w < 8; w++ {
@@ -285,6 +286,9 @@ func runCheck(repo, verif, prop, tier, fnFilter string, relock, verbose bool) in
 							o.Res.Output = "path infeasible already before the call"
 						}
 					}
+				} else if knownEarly.find(prop, o.Name) != nil {
+					// a recorded finding: only a proof (unsat) would change its status
+					o.Res = solve(script, 3, false)
 				} else {
 					o.Res = solve(script, timeout, confirm)
 				}
